@@ -13,7 +13,7 @@ import (
 func init() {
 	register(&propDef{
 		ID:          "C06",
-		Explanation: "Totality and promptness of the parser over all byte strings are runtime facts and are R4 (termination of the top-level loop) every parser that has read one of the template keywords (templ / css / script) turns each later failed sub-parse into an error — it never declines with ok=false and a nil error, because the Go-code reader un-reads keyword lines containing an opening parenthesis and asks these parsers again; R5 every write into a strings.Builder whose String() becomes an Expression's text is text consumed from the input (result of Parse/Take), never a constant. NOT decided. Decides the position-provenance clauses of the property, for all sites of package parser/v2 and goexpression: R1 every Expression/Range built by the parser goes through NewExpression/NewRange with positions that are parse.Position values obtained from the input being parsed (Position()/PositionAt(), or locals/parameters of that type); no Position, Range or Expression composite literal with position fields exists outside the three constructors, and the constructors copy index, line and column field by field; direct writes to Index/Line/Col exist only as a paired adjustment of Index and Col of the same position by the same constant; R2 every NameRange is NewRange(PositionAt(Index() − len(X.Name)), Position()) where X.Name is the field assigned by the name parser in the statement just before, for the same X; R3 (clamps) the bounds that come from go/parser positions are clamped before they are used to slice the source: in the extractor wrapper `end > len(content) → end = len(content)` and `start > end → start = end` follow the prefix subtraction and precede the return, and every slice bound taken from a go/ast End() position is tested (rejected or clamped) before the slice; parseGo slices and advances with the extractor's own start/end and converts them with PositionAt(from+start / from+end). NOT decided: absence of panics and hangs on arbitrary input, that the recorded text equals the source at the recorded range for every construct (value-level), error positions.",
+		Explanation: "Totality and promptness of the parser over all byte strings are runtime facts and are R4 (termination of the top-level loop) every parser that has read one of the template keywords (templ / css / script) turns each later failed sub-parse into an error — it never declines with ok=false and a nil error, because the Go-code reader un-reads keyword lines containing an opening parenthesis and asks these parsers again; R5 every write into a strings.Builder whose String() becomes an Expression's text is text consumed from the input (result of Parse/Take), never a constant. R6 every `until` lookahead handed to the node-list parser (which rewinds after a match) is flat: it does not reach the node-list parser again, so no branch is parsed twice per nesting level. NOT decided. Decides the position-provenance clauses of the property, for all sites of package parser/v2 and goexpression: R1 every Expression/Range built by the parser goes through NewExpression/NewRange with positions that are parse.Position values obtained from the input being parsed (Position()/PositionAt(), or locals/parameters of that type); no Position, Range or Expression composite literal with position fields exists outside the three constructors, and the constructors copy index, line and column field by field; direct writes to Index/Line/Col exist only as a paired adjustment of Index and Col of the same position by the same constant; R2 every NameRange is NewRange(PositionAt(Index() − len(X.Name)), Position()) where X.Name is the field assigned by the name parser in the statement just before, for the same X; R3 (clamps) the bounds that come from go/parser positions are clamped before they are used to slice the source: in the extractor wrapper `end > len(content) → end = len(content)` and `start > end → start = end` follow the prefix subtraction and precede the return, and every slice bound taken from a go/ast End() position is tested (rejected or clamped) before the slice; parseGo slices and advances with the extractor's own start/end and converts them with PositionAt(from+start / from+end). NOT decided: absence of panics and hangs on arbitrary input, that the recorded text equals the source at the recorded range for every construct (value-level), error positions.",
 		Assumptions: []string{"github.com/a-h/parse Input.Position/PositionAt derive line and column from the byte index through its newline table"},
 		Trusted:     []string{"go/types", "x/tools go/packages, go/cfg"},
 		Run:         runC06,
@@ -24,6 +24,7 @@ func runC06(c *Ctx) {
 	c.load("./parser/v2", "./parser/v2/goexpression")
 	committedPrefixParsers(c, "C06.R4")
 	expressionTextFromInput(c, "C06.R5")
+	lookaheadParsersFlat(c, "C06.R6")
 	p := c.pkg("parser/v2")
 	info := p.TypesInfo
 	isParsePos := func(t types.Type) bool { return t != nil && t.String() == "github.com/a-h/parse.Position" }
@@ -760,4 +761,153 @@ func expressionTextFromInput(c *Ctx, rule string) {
 	}
 	c.count("expression_builder_writes", n)
 	c.floor(rule, 3)
+}
+
+// lookaheadParsersFlat: C06.R6 — "terminates promptly". The node-list parser asks its `until` parser at every node
+// boundary whether the list has ended and rewinds the input when it has, so whatever `until` consumed is parsed again
+// by the caller. An `until` parser that itself parses a nested node list makes every level of nesting double the work
+// (2^depth): it must be a flat token lookahead, i.e. not reach the node-list parser.
+func lookaheadParsersFlat(c *Ctx, rule string) {
+	pp := c.pkg("parser/v2")
+	info := pp.TypesInfo
+	scope := pp.Types.Scope()
+	ctor, _ := scope.Lookup("newTemplateNodeParser").(*types.Func)
+	if ctor == nil {
+		c.viol(rule, "anchor-lost:newTemplateNodeParser", "", "the constructor of the node-list parser was not found")
+		return
+	}
+	// the node-list parser rewinds after a successful lookahead
+	rewinds := false
+	for _, fd := range allFuncDecls(pp) {
+		if fd.Recv == nil || fd.Name.Name != "Parse" || !strings.HasPrefix(recvTypeName(fd.Recv.List[0].Type), "templateNodeParser") {
+			continue
+		}
+		ast.Inspect(fd.Body, func(x ast.Node) bool {
+			is, ok := x.(*ast.IfStmt)
+			if !ok || types.ExprString(is.Cond) != "ok" {
+				return true
+			}
+			for _, st := range is.Body.List {
+				if es, ok := st.(*ast.ExprStmt); ok {
+					if call, ok := es.X.(*ast.CallExpr); ok {
+						if se, ok := call.Fun.(*ast.SelectorExpr); ok && se.Sel.Name == "Seek" {
+							rewinds = true
+						}
+					}
+				}
+			}
+			return true
+		})
+	}
+	if !rewinds {
+		c.ok(rule, pp.PkgPath+"|node-list-parser-does-not-rewind", "", "the node-list parser no longer rewinds after its lookahead matched: nothing is parsed twice")
+		return
+	}
+	// reference graph over package-level objects
+	refs := map[types.Object]map[types.Object]bool{}
+	addRefs := func(from types.Object, n ast.Node) {
+		if refs[from] == nil {
+			refs[from] = map[types.Object]bool{}
+		}
+		ast.Inspect(n, func(x ast.Node) bool {
+			switch x := x.(type) {
+			case *ast.Ident:
+				if ob := info.Uses[x]; ob != nil && ob.Pkg() == pp.Types && (ob.Parent() == scope) {
+					refs[from][ob] = true
+				}
+			case *ast.SelectorExpr:
+				if sel, ok := info.Selections[x]; ok {
+					if fn, ok := sel.Obj().(*types.Func); ok && fn.Pkg() == pp.Types {
+						refs[from][fn] = true
+					}
+				}
+			}
+			return true
+		})
+	}
+	methodsOf := map[types.Object][]types.Object{}
+	for _, f := range pp.Syntax {
+		for _, d := range f.Decls {
+			switch d := d.(type) {
+			case *ast.GenDecl:
+				for _, sp := range d.Specs {
+					if vs, ok := sp.(*ast.ValueSpec); ok {
+						for i, nm := range vs.Names {
+							ob := info.Defs[nm]
+							if i < len(vs.Values) {
+								addRefs(ob, vs.Values[i])
+							} else if len(vs.Values) == 1 {
+								addRefs(ob, vs.Values[0])
+							}
+							if vs.Type != nil {
+								addRefs(ob, vs.Type)
+							}
+						}
+					}
+				}
+			case *ast.FuncDecl:
+				if d.Body == nil {
+					continue
+				}
+				ob := info.Defs[d.Name]
+				addRefs(ob, d.Body)
+				if d.Recv != nil {
+					if tn, ok := scope.Lookup(recvTypeName(d.Recv.List[0].Type)).(*types.TypeName); ok {
+						methodsOf[tn] = append(methodsOf[tn], ob)
+					}
+				}
+			}
+		}
+	}
+	reaches := func(start ast.Expr) (bool, []string) {
+		seen := map[types.Object]bool{}
+		var path []string
+		var found bool
+		var visit func(ob types.Object, trail []string)
+		visit = func(ob types.Object, trail []string) {
+			if found || seen[ob] {
+				return
+			}
+			seen[ob] = true
+			trail = append(trail, ob.Name())
+			if ob == types.Object(ctor) {
+				found = true
+				path = append([]string{}, trail...)
+				return
+			}
+			for r := range refs[ob] {
+				visit(r, trail)
+			}
+			for _, m := range methodsOf[ob] {
+				visit(m, trail)
+			}
+		}
+		tmp := types.NewVar(token.NoPos, pp.Types, "<until>", nil)
+		addRefs(tmp, start)
+		for r := range refs[tmp] {
+			visit(r, nil)
+		}
+		return found, path
+	}
+	n := 0
+	for _, sc := range fileScopes(pp) {
+		ord := 0
+		ast.Inspect(sc.Body, func(x ast.Node) bool {
+			call, ok := x.(*ast.CallExpr)
+			if !ok || len(call.Args) < 1 {
+				return true
+			}
+			if fn := calleeOf(info, call); fn == nil || fn != ctor {
+				return true
+			}
+			ord++
+			n++
+			rec, path := reaches(call.Args[0])
+			c.check(!rec, rule, fmt.Sprintf("%s|until#%d:%s|flat-lookahead", funcKey(pp, sc), ord, types.ExprString(call.Args[0])), c.pos(call.Pos()), "the lookahead does not parse nested node lists",
+				fmt.Sprintf("%s ends its node list with the lookahead %s, which reaches the node-list parser again (%s): the lookahead parses the whole following branch, the node-list parser rewinds, and the branch is parsed a second time — every level of nesting doubles the work (16 nested if/else: seconds; 30: hours), so parsing does not terminate promptly", sc.Name.Name, types.ExprString(call.Args[0]), strings.Join(path, " → ")))
+			return true
+		})
+	}
+	c.count("node_list_lookaheads", n)
+	c.floor(rule, 5)
 }
